@@ -43,6 +43,11 @@ def worlds(tier: str, stats: Dict[str, Any], subset: Optional[str] = None) -> It
                 # Kineto does not write events in time order: same trace, device records last and in reverse order
                 stats["transitions"] += 1
                 yield dict(program=[list(a) for a in p], profile=prof, steps=False, flag=(i + j + 1) % 2, file_order="device-reversed")
+            if j == 0 and (i % 2 == 0):
+                # a second host thread holding a single leaf operator (a disconnected component of the graph)
+                for leaf in (200, 1):
+                    stats["transitions"] += 1
+                    yield dict(program=[list(a) for a in p], profile=prof, steps=False, flag=i % 2, second_thread=leaf)
             if kind == "ops" and len(p) <= 4 and j < 2:
                 stats["transitions"] += 1
                 yield dict(program=[list(a) for a in wrap_steps(p)], profile=prof, steps=True, flag=(i + j + 1) % 2)
@@ -50,6 +55,10 @@ def worlds(tier: str, stats: Dict[str, Any], subset: Optional[str] = None) -> It
 
 def build(world) -> List[Dict[str, Any]]:
     evs = gpusim.run([tuple(a) for a in world["program"]], world["profile"])
+    if world.get("second_thread"):
+        from mc import kineto
+
+        evs.append(kineto.cpu_op("aten::other_thread_leaf", gpusim.E0 + 1, world["second_thread"], tid=101, ext=999))
     if world.get("file_order") == "device-reversed":
         host = [e for e in evs if e["pid"] != 0]
         dev = [e for e in evs if e["pid"] == 0]
